@@ -53,3 +53,25 @@ func mentionsParamOfKind(v ssa.Value, k types.BasicKind, depth int) bool {
 	}
 	return false
 }
+
+// everyPhiEdge: pred holds for v, or v is a phi (possibly through conversions) all of whose edges satisfy it.
+func everyPhiEdge(v ssa.Value, pred func(ssa.Value) bool, depth int) bool {
+	if v == nil || depth > 6 {
+		return false
+	}
+	switch x := v.(type) {
+	case *ssa.Phi:
+		for _, e := range x.Edges {
+			if !everyPhiEdge(e, pred, depth+1) {
+				return false
+			}
+		}
+		return len(x.Edges) > 0
+	case *ssa.Convert:
+		if pred(v) {
+			return true
+		}
+		return everyPhiEdge(x.X, pred, depth+1)
+	}
+	return pred(v)
+}
